@@ -163,9 +163,13 @@ func hasFreeBound(t *Term, bound []*Term) bool {
 
 func (ts *TermStore) Leaf(text string, s Sort) *Term { return ts.intern(kLeaf, text, s, nil, nil) }
 
-func (ts *TermStore) Bound(name string, s Sort) *Term {
-	ts.fresh++
-	return ts.intern(kBound, fmt.Sprintf("%s!b%d", name, ts.fresh), s, nil, nil)
+// Bound returns the bound variable for a quantifier at nesting depth d.
+// Names are canonical (name, depth), so two translations of the same
+// quantified spec expression are the same term.
+func (ts *TermStore) Bound(name string, s Sort) *Term { return ts.BoundAt(name, s, 100) }
+
+func (ts *TermStore) BoundAt(name string, s Sort, depth int) *Term {
+	return ts.intern(kBound, fmt.Sprintf("%s!q%d", name, depth), s, nil, nil)
 }
 
 func (ts *TermStore) App(op string, s Sort, args ...*Term) *Term {
@@ -239,12 +243,42 @@ func (ts *TermStore) And(as ...*Term) *Term {
 			return ts.False()
 		}
 	}
+	// unit simplification: A ∧ ¬(A ∧ X)  ==>  A ∧ ¬X
+	for round := 0; round < 8; round++ {
+		changed := false
+		for i, a := range out {
+			if !(a.kind == kApp && a.op == "not" && a.args[0].kind == kApp && a.args[0].op == "and") {
+				continue
+			}
+			var rest []*Term
+			for _, m := range a.args[0].args {
+				if !seen[m.id] {
+					rest = append(rest, m)
+				}
+			}
+			if len(rest) == len(a.args[0].args) {
+				continue
+			}
+			if len(rest) == 0 {
+				return ts.False()
+			}
+			repl := ts.Not(ts.And(rest...))
+			// rebuild with the replacement (may flatten into several conjuncts)
+			nl := append(append([]*Term{}, out[:i]...), out[i+1:]...)
+			nl = append(nl, repl)
+			return ts.And(nl...)
+		}
+		if !changed {
+			break
+		}
+	}
 	switch len(out) {
 	case 0:
 		return ts.True()
 	case 1:
 		return out[0]
 	}
+	sort.Slice(out, func(i, j int) bool { return out[i].id < out[j].id })
 	return ts.App("and", SBool, out...)
 }
 
@@ -283,6 +317,22 @@ func (ts *TermStore) Or(as ...*Term) *Term {
 			return ts.True()
 		}
 	}
+	if len(out) >= 2 && len(out) <= 24 {
+		out = ts.resolveOr(out)
+		seen2 := map[int]bool{}
+		for _, a := range out {
+			if a.isTrue() {
+				return a
+			}
+			seen2[a.id] = true
+		}
+		for _, a := range out {
+			if a.kind == kApp && a.op == "not" && seen2[a.args[0].id] {
+				return ts.True()
+			}
+		}
+		sort.Slice(out, func(i, j int) bool { return out[i].id < out[j].id })
+	}
 	switch len(out) {
 	case 0:
 		return ts.False()
@@ -290,6 +340,123 @@ func (ts *TermStore) Or(as ...*Term) *Term {
 		return out[0]
 	}
 	return ts.App("or", SBool, out...)
+}
+
+// resolveOr simplifies a disjunction of conjunctions by resolution
+// (S∧l) ∨ (S∧¬l) = S and absorption S ∨ (S∧T) = S. Path conditions of
+// control-flow joins collapse to the condition of the dominating block.
+func (ts *TermStore) resolveOr(args []*Term) []*Term {
+	lits := func(t *Term) []*Term {
+		if t.kind == kApp && t.op == "and" {
+			return t.args
+		}
+		return []*Term{t}
+	}
+	neg := func(t *Term) *Term {
+		if t.kind == kApp && t.op == "not" {
+			return t.args[0]
+		}
+		return nil
+	}
+	type clause map[int]*Term
+	mk := func(t *Term) clause {
+		c := clause{}
+		for _, l := range lits(t) {
+			c[l.id] = l
+		}
+		return c
+	}
+	cs := make([]clause, len(args))
+	for i, a := range args {
+		cs[i] = mk(a)
+	}
+	changed := true
+	rounds := 0
+	for changed && rounds < 64 {
+		changed = false
+		rounds++
+	outer:
+		for i := 0; i < len(cs); i++ {
+			for j := 0; j < len(cs); j++ {
+				if i == j {
+					continue
+				}
+				a, b := cs[i], cs[j]
+				// absorption: a ⊆ b  => drop b
+				if len(a) <= len(b) {
+					sub := true
+					for id := range a {
+						if _, ok := b[id]; !ok {
+							sub = false
+							break
+						}
+					}
+					if sub {
+						cs = append(cs[:j], cs[j+1:]...)
+						changed = true
+						break outer
+					}
+				}
+				if len(a) != len(b) {
+					continue
+				}
+				// resolution: differ in exactly one literal which is negated
+				var da, db *Term
+				nd := 0
+				for id, l := range a {
+					if _, ok := b[id]; !ok {
+						nd++
+						da = l
+					}
+				}
+				if nd != 1 {
+					continue
+				}
+				for id, l := range b {
+					if _, ok := a[id]; !ok {
+						db = l
+					}
+				}
+				if db == nil {
+					continue
+				}
+				if (neg(da) == db) || (neg(db) == da) {
+					nc := clause{}
+					for id, l := range a {
+						if l != da {
+							nc[id] = l
+						}
+					}
+					// replace i by nc, remove j
+					cs[i] = nc
+					cs = append(cs[:j], cs[j+1:]...)
+					changed = true
+					break outer
+				}
+			}
+		}
+	}
+	out := make([]*Term, 0, len(cs))
+	for _, c := range cs {
+		if len(c) == 0 {
+			return []*Term{ts.True()}
+		}
+		ids := make([]int, 0, len(c))
+		for id := range c {
+			ids = append(ids, id)
+		}
+		sort.Ints(ids)
+		ls := make([]*Term, len(ids))
+		for i, id := range ids {
+			ls[i] = c[id]
+		}
+		if len(ls) == 1 {
+			out = append(out, ls[0])
+		} else {
+			out = append(out, ts.App("and", SBool, ls...))
+		}
+	}
+	return out
 }
 
 func (ts *TermStore) Implies(a, b *Term) *Term {
@@ -649,4 +816,64 @@ func arrIteLeaves(t *Term, n int) int {
 		return arrIteLeaves(t.args[2], n)
 	}
 	return n + 1
+}
+
+// Subst replaces bound variables by terms.
+func (ts *TermStore) Subst(t *Term, m map[*Term]*Term) *Term {
+	if !t.open {
+		return t
+	}
+	memo := map[int]*Term{}
+	var rec func(t *Term) *Term
+	rec = func(t *Term) *Term {
+		if !t.open {
+			return t
+		}
+		if r, ok := memo[t.id]; ok {
+			return r
+		}
+		var r *Term
+		switch t.kind {
+		case kBound:
+			if v, ok := m[t]; ok {
+				r = v
+			} else {
+				r = t
+			}
+		case kQuant:
+			r = ts.Quant(t.op, t.bvars, rec(t.args[0]))
+		default:
+			args := make([]*Term, len(t.args))
+			for i, a := range t.args {
+				args[i] = rec(a)
+			}
+			r = ts.rebuild(t, args)
+		}
+		memo[t.id] = r
+		return r
+	}
+	return rec(t)
+}
+
+// rebuild re-applies the simplifying constructors after substitution.
+func (ts *TermStore) rebuild(t *Term, args []*Term) *Term {
+	switch t.op {
+	case "not":
+		return ts.Not(args[0])
+	case "and":
+		return ts.And(args...)
+	case "or":
+		return ts.Or(args...)
+	case "=>":
+		return ts.Implies(args[0], args[1])
+	case "ite":
+		return ts.Ite(args[0], args[1], args[2])
+	case "=":
+		return ts.Eq(args[0], args[1])
+	case "select":
+		return ts.Select(args[0], args[1])
+	case "store":
+		return ts.Store(args[0], args[1], args[2])
+	}
+	return ts.App(t.op, t.sort, args...)
 }
